@@ -30,7 +30,7 @@ ASSUMPTIONS = [
 ]
 PROBES = ["empty_table", "sparse", "multi_component_index", "mixed_arity", "adjacent_second_table",
           "table_ends_view", "bulk_1", "bulk_gt_table", "policy_partial", "single_column", "big_subid_in_index",
-          "lossy_completed", "lossy_timeout", "twelve_rows"]
+          "lossy_completed", "lossy_timeout", "twelve_rows", "decimal_prefix_sibling"]
 shrink_lists = [("cells",), ("neighbours",), ("faults", "explicit")]
 POLICIES = ["full", "fewer", "partial", "stop_eom"]
 VARIANTS = ["table", "bulktable", "pytable", "pybulktable"]
@@ -84,6 +84,12 @@ def plan_for(tier: str, seed: int, i: int) -> dict:
             neighbours.append((base + (a + 2, 0), ("int", 43)))             # scalar after
         if rng.random() < 0.3:
             neighbours.append(((1, 3, 7, 1, 0), ("int", 9)))
+        if rng.random() < 0.35:
+            # a sibling whose sub-identifier has the table's as a decimal prefix (table ...9.2, object ...9.20.x):
+            # textually "inside" the table, numerically outside
+            sib = int(str(a) + rng.choice(["0", "5", "00"]))
+            neighbours.append((base + (sib, 1, cols[0]) + (rows[0] if rows else (1,)), ("str", b"decimal-prefix-sibling")))
+            neighbours.append((base + (sib, 0), ("int", 44)))
     n_cells = len(cells)
     r = rng.random()
     if r < 0.25:
@@ -225,6 +231,8 @@ def execute(plan: dict) -> dict:
         "big_subid_in_index": int(any(x >= 2**21 for ix in idxs for x in ix)),
         "lossy_completed": int(lossy and n_ok == len(plan["variants"])), "lossy_timeout": int(n_timeout > 0),
         "twelve_rows": int(len(idxs) >= 10),
+        "decimal_prefix_sibling": int(any(len(o) > len(table) and o[:len(table) - 1] == table[:-1] and o[len(table) - 1] != table[-1]
+                                          and str(o[len(table) - 1]).startswith(str(table[-1])) for o, _ in plan["neighbours"])),
     }
     counters = dict(w.net.counters)
     for k, v in probes.items():
